@@ -168,10 +168,12 @@ theorem fk_reverse_sound (p : Par ℝ) (s : St ℝ) (L : List ℝ) (o : List (So
       IsRot s2.Tb.R ∧ IsRot s2.Tt.R)
     {top : T4 ℝ} {s' : St ℝ} {o' : List (Sol ℝ)} (h : fk p s L true false o = some (top, true, s', o')) :
     AllHold p s' ∧ s'.Tt = s.Tt := by
-  unfold fk at h
+  unfold fk fkAt at h
+  simp only [↓reduceIte] at h
   split at h
   · simp at h
   · rename_i top1 s1 o1 hc
+    have hc : fkCore p s L o false = some (top1, s1, o1) := hc
     have h1 := fkCore_coh p s L o false hc
     simp only [Bool.false_eq_true, ↓reduceIte] at h
     split at h
